@@ -659,9 +659,13 @@ fn gen_t<S: Sut>(rng: &mut Prng, sw: &Swarm, st: &mut Stats, mut trace: Option<&
                     _ => Ev::Acc(draw_acc(rng, sw, &mut prev, false)),
                 },
                 _ => {
-                    let r = rng.range(1, 4) as usize;
-                    let c = rng.range(1, 4) as usize;
-                    let k = rng.geometric(1, 8, 3, 4) as usize;
+                    let (la, lb) = (rng.below(4) as u8, rng.below(4) as u8);
+                    let (r, c, k) = if la == 3 && lb == 3 {
+                        let n = rng.range(2, 3) as usize;
+                        (n, n, n)
+                    } else {
+                        (rng.range(1, 4) as usize, rng.range(1, 4) as usize, rng.geometric(1, 8, 3, 4) as usize)
+                    };
                     let mut a = Vec::with_capacity(r * k);
                     let mut b = Vec::with_capacity(k * c);
                     for _ in 0..r * k {
@@ -676,7 +680,7 @@ fn gen_t<S: Sut>(rng: &mut Prng, sw: &Swarm, st: &mut Stats, mut trace: Option<&
                         let i = rng.below((r * k) as u64) as usize;
                         a[i] = qt.nar();
                     }
-                    Ev::MatDot { r, k, c, a, b }
+                    Ev::MatDot { r, k, c, la, lb, a, b }
                 }
             };
             if runner.valid(&ev).is_ok() {
